@@ -100,7 +100,7 @@ def generate(rng, prop, tier):
         if rng.chance(0.7):
             op = {'op': 'open', 'cached': rng.chance(0.5)} if rng.chance(0.6) else \
                 {'op': 'set', 'k': pre[0][0], 'v': enc(pick_v())}
-    return {'engine': 'crashsim', 'prop': prop, 'backend': B.config(label, B.odd_name(rng, label, 'c0')),
+    return {'engine': 'crashsim', 'prop': prop, 'backend': B.with_link(rng, label, B.config(label, B.odd_name(rng, label, 'c0')), 0.12),
             'history': history,
             'ops': [{'op': 'pre', 'k': k, 'v': v} for k, v in pre], 'final': op,
             'order': rng.choice(['sorted', 'permute']), 'kseed': rng.below(1 << 30)}
